@@ -378,7 +378,10 @@ func (g *Gen) Mailbox(label string) string {
 
 		name = strings.Join(parts, delim)
 	case 5:
-		name = pick(g, label, []string{"", "inboxx", "INBO", "INBOX ", " INBOX", "INBOX/", "~user/mail", "#news.comp.mail", "#shared/x"})
+		// near misses of INBOX, incl. names that only a Unicode case mapping turns into it (U+0131 dotless i upper-cases
+		// to I, U+0130 lower-cases to i + combining dot): only the ASCII spellings of INBOX are INBOX
+		name = pick(g, label, []string{"", "inboxx", "INBO", "INBOX ", " INBOX", "INBOX/", "~user/mail", "#news.comp.mail", "#shared/x",
+			"\u0131nbox", "\u0131NBOX", "\u0130NBOX", "\u0130nbox"})
 	default:
 		name = g.Text(label)
 	}
@@ -553,7 +556,7 @@ func (g *Gen) Search(minDepth int) *command.Search {
 
 	if g.chance("charset", 1, 3) {
 		if g.chance("charset-known", 4, 5) {
-			s.Charset = g.caseMix("charset", pick(g, "charset", []string{"UTF-8", "US-ASCII", "ISO-8859-1", "utf8", "KOI8-R", "x"}))
+			s.Charset = g.caseMix("charset", pick(g, "charset", []string{"UTF-8", "US-ASCII", "ISO-8859-1", "utf8", "KOI8-R", "x", "UTF-7", "UTF-32", "ISO-2022-KR", "BOCU-1"}))
 		} else {
 			s.Charset = g.Text("charset")
 		}
